@@ -22,7 +22,7 @@ ROOT = [Opt('int', b'x', 0, 0), Opt('sec', b's', 0, None, S), Opt('sec', b'm', F
         Opt('sec', b'e', F['MULTI'], None, T)]
 TEXT = (b'm { a = 10 n u { z = 1 } n "v|w" { z = 2 } n "q\'r" { z = 3 } n "b\\\\s" { z = 4 } }\n'
         b'm { a = 11 }\nm { a = 12 n "1" { z = 5 } }\n'
-        b't one { a = 5 }\nt "tw o" { a = 6 }\nt "01" { a = 7 }\nt "=" { a = 8 }\n')
+        b't one { a = 5 }\nt "tw o" { a = 6 }\nt "01" { a = 7 }\nt "=" { a = 8 }\nt "k=v" { a = 9 }\nt "a=b=c" { a = 10 }\n')
 
 SCHEMA_BY_NAME = {}
 
@@ -184,7 +184,7 @@ def good_paths():
                         paths.append(f + b'|' + g + b'|z')
             if i == 2:
                 paths += [f + b"|n=1|z", f + b"|n='1'|z", f + b'|n|z']
-    for t in (b'one', b'tw o', b'01', b'='):
+    for t in (b'one', b'tw o', b'01', b'=', b'k=v', b'a=b=c'):
         paths += [b't=' + t + b'|a' if t != b'=' else b"t='='|a", b't=' + quote(t) + b'|a']
     paths += [b't|a']
     return paths
